@@ -97,7 +97,9 @@ pub fn generate(tier: &str, seed: u64) -> Vec<String> {
         let cfg = gen_cfg(&mut rng, if k % 3 != 2 { Some(true) } else { Some(false) });
         if cfg.shape.is_empty() { continue; }
         k += 1;
-        out.push(cfg.cfg_line("c05", "memory", rng.chance(1, 5), true, ""));
+        // every sixth case on a filesystem store: its `set_partial_values` is the generic read-modify-write of zarrs_storage
+        // (the memory store has its own), which the sharding partial encoder drives with several writes per key
+        out.push(cfg.cfg_line("c05", if k % 6 == 5 { "fs" } else { "memory" }, rng.chance(1, 5), true, ""));
         // sometimes start from existing values written without partial encoding semantics (whole chunks)
         let gs = cfg.grid_shape();
         if rng.chance(1, 2) {
